@@ -140,3 +140,16 @@ func ForallString3(body func(a, b, c string) bool) bool { panic("verifspec: proo
 
 // SameBytes compares two byte slices (length and contents).
 func SameBytes(a, b []byte) bool { return string(a) == string(b) }
+
+// SameSlice: the two slices are the same value (same length and elements).
+func SameSlice[T comparable](a, b []T) bool {
+	if len(a) != len(b) {
+		return false
+	}
+	for i := range a {
+		if a[i] != b[i] {
+			return false
+		}
+	}
+	return true
+}
